@@ -1625,33 +1625,46 @@ def make_fn(cls, fn, helpers, module):
     return Fn(cls, fn, helpers, module)
 
 
+MUTATORS = {"append", "extend", "insert", "remove", "pop", "clear", "sort", "reverse", "popleft", "appendleft",
+            "rotate", "update", "add", "discard", "setdefault", "popitem", "__setitem__", "__delitem__", "__setattr__"}
+READERS = ("len", "bool", "iter", "reversed", "enumerate", "list", "tuple", "sorted")
+
+
 def read_only(m, translated):
-    """a method the translator cannot express but that provably leaves every queue alone: no store
-    to an attribute or subscript, no method call on a list of the object or through heapq, no
-    call of a method of the class that was not itself translated (plain iteration protocols)"""
+    """a method the translator cannot express but that evidently leaves every queue alone (plain
+    iteration protocols): no store to an attribute or subscript, no call of a mutating container
+    method or of heapq on anything, and `self.<x>` occurs only as the iterable of a `for`, as the
+    argument of len/bool/reversed/enumerate/…, or as a call of an already translated method"""
     me = m.args.args[0].arg if m.args.args else None
+    parent = {}
+    for n in ast.walk(m):
+        for c in ast.iter_child_nodes(n):
+            parent[c] = n
     for n in ast.walk(m):
         if isinstance(n, (ast.Attribute, ast.Subscript)) and isinstance(n.ctx, (ast.Store, ast.Del)):
             return False
-        if isinstance(n, (ast.Global, ast.Nonlocal, ast.Lambda, ast.Await)):
+        if isinstance(n, (ast.Global, ast.Nonlocal, ast.Lambda, ast.Await, ast.AsyncFor, ast.AsyncWith)):
             return False
         if isinstance(n, ast.Call) and isinstance(n.func, ast.Attribute):
-            recv = n.func.value
-            if isinstance(recv, ast.Name) and recv.id == "heapq":
+            if n.func.attr in MUTATORS and not (isinstance(n.func.value, ast.Name) and n.func.value.id == me):
                 return False
-            if isinstance(recv, ast.Attribute):                 # self._pq.<method>()
+            if isinstance(n.func.value, ast.Name) and n.func.value.id == "heapq":
                 return False
-            if isinstance(recv, ast.Name) and recv.id == me and n.func.attr not in translated:
-                return False
-        if isinstance(n, ast.Call) and isinstance(n.func, ast.Name) and n.func.id in ("setattr", "delattr", "exec", "eval"):
+        if isinstance(n, ast.Call) and isinstance(n.func, ast.Name) and n.func.id in ("setattr", "delattr", "exec", "eval",
+                                                                                      "vars", "getattr"):
             return False
-        # a list of the object handed to anything but len/bool/iteration could be changed there
-        if isinstance(n, ast.Call) and not (isinstance(n.func, ast.Name) and n.func.id in
-                                            ("len", "bool", "iter", "reversed", "enumerate", "list", "tuple", "sorted")):
-            for arg in list(n.args) + [k.value for k in n.keywords]:
-                if any(isinstance(x, ast.Attribute) and isinstance(x.value, ast.Name) and x.value.id == me
-                       for x in ast.walk(arg)):
-                    return False
+        if isinstance(n, ast.Name) and n.id == me:
+            p = parent.get(n)
+            if not (isinstance(p, ast.Attribute) and p.value is n):
+                return False                                  # bare `self` handed around
+            pp = parent.get(p)
+            if isinstance(pp, ast.Call) and pp.func is p and p.attr in translated:
+                continue                                      # self.m(...)
+            if isinstance(pp, ast.For) and pp.iter is p:
+                continue                                      # for x in self._pq
+            if isinstance(pp, ast.Call) and isinstance(pp.func, ast.Name) and pp.func.id in READERS and p in pp.args:
+                continue                                      # len(self._pq), reversed(self._pq), …
+            return False
     return True
 
 
